@@ -81,6 +81,8 @@ def dpq_unit(entry):
             x = c.real("x", lo=-4, hi=4)
         else:
             x = c.real("x", lo=0.1, hi=8)
+        if c.mode == "concrete" and "x_override" in c.values and fn != "ppf":
+            x = float(c.values["x_override"])      # replay at an extreme argument (see tail_replay)
         f = getattr(distn, rname)
         st = stubs.StatsStub(c, closed_forms=False) if c.mode == "sym" else None
         patches = [(distn, "st", st)] if c.mode == "sym" else []
@@ -101,7 +103,28 @@ def dpq_unit(entry):
                 kw["log"] = False
             gv = f(xs, **kw)
             c.prove(np.asarray(gv, dtype=object).shape == (2,), "%s is vectorised over its first argument" % rname)
-    return Unit("C19.%s" % rname, h, bounds={"function": rname, "args": argn}, max_paths=20, tol=1e-9)
+    return Unit("C19.%s" % rname, h, bounds={"function": rname, "args": argn}, max_paths=20, tol=1e-9,
+                replay=(lambda vals, label: tail_replay(h, vals, label)) if has_log else None)
+
+
+def tail_replay(h, vals, label):
+    """A counter-model separates two expressions that agree over the reals (e.g. log(pdf) vs logpdf) only where
+    floating point does: replay at the counter-model's point first, then at extreme arguments of the family
+    (far tails, tiny and large values), where a log form computed as log(plain form) underflows."""
+    tries = []
+    for xo in (None, 45.0, -45.0, 60.0, -60.0, 400.0, 1e-300, 745.0):
+        v = dict(vals)
+        if xo is not None:
+            v["x_override"] = xo
+        try:
+            c0, status, exc = sym.run_concrete(h, v, 1e-9)
+        except BaseException as e:      # noqa
+            tries.append({"x": xo, "error": repr(e)[:80]})
+            continue
+        tries.append({"x": xo, "status": status, "failed": c0.failed[:3]})
+        if c0.failed:
+            return True, {"tries": tries}
+    return False, {"tries": tries}
 
 
 def nbinom_unit():
